@@ -157,9 +157,31 @@ func robustMutate(r *Rng, seed []byte, textual bool) []byte {
 
 var robustHostileNames = []string{"", ".", "./", "..", "../x", "a/..", "a/../..", "/", "//", "/abs", "a//b", "a/./b", "usr/../x", strings.Repeat("d/", 200) + "f", "a\x00b", "\xff\xfe", ".hidden", "./.", "a/", "lib/apk/db/installed"}
 
+var robustBoundary = []string{"", "\n", "\x00", "a", ":", "\x1f\x8b", "\x1f\x8b\x08\x00\x00\x00\x00\x00\x00\xff", "\n\n\n", "=", "{", "[", "---", "P:", "C:Q1", "'", "K='", "K='x", "K=\"", "include: @SELF@\n"}
+
 func (robustSuite) Gen(r *Rng, i int, tier string) any {
 	var c robustCase
 	add := func(reader string, data []byte) { c.Inputs = append(c.Inputs, robustInput{reader, hex.EncodeToString(data)}) }
+	if i == 0 {
+		// boundary inputs for every reader: empty, one byte, a bare gzip header, an unterminated quote, a self-including configuration
+		for _, rd := range []string{"version", "constraint", "index", "installed", "passwd", "group", "osrelease", "lock", "imageconfig", "indexarchive", "split", "expandapk"} {
+			for _, b := range robustBoundary {
+				add(rd, []byte(b))
+			}
+		}
+		for _, hostile := range [][]SFile{
+			{{Path: "", Type: "file", Mode: 0o644, Content: "x"}},
+			{{Path: "", Type: "dir", Mode: 0o755}},
+			{{Path: ".", Type: "dir", Mode: 0o755}, {Path: "./", Type: "dir", Mode: 0o755}},
+			{{Path: "a", Type: "dir", Mode: 0o755}, {Path: "a/../..", Type: "dir", Mode: 0o755}},
+			{{Path: "usr", Type: "dir", Mode: 0o755}, {Path: "usr/f", Type: "hardlink", Mode: 0o644, Link: "usr/missing"}},
+			{{Path: "l", Type: "symlink", Mode: 0o777, Link: ""}},
+		} {
+			b, _ := json.Marshal(hostile)
+			add("hostile-apk", b)
+		}
+		return c
+	}
 	n := 60
 	for k := 0; k < n; k++ {
 		switch r.Intn(14) {
@@ -176,7 +198,11 @@ func (robustSuite) Gen(r *Rng, i int, tier string) any {
 		case 7:
 			add("group", robustMutate(r, []byte(robustGroupSeed), true))
 		case 8:
-			add("osrelease", robustMutate(r, []byte(robustOsReleaseSeed), true))
+			seed := robustOsReleaseSeed
+			if r.Chance(40) {
+				seed = strings.Replace(seed, "\"Wolfi\"", Pick(r, []string{"'Wolfi'", "'Wolfi", "'", "\"", "'a\"", "\"a'"}), 1)
+			}
+			add("osrelease", robustMutate(r, []byte(seed), true))
 		case 9:
 			add("lock", robustMutate(r, []byte(robustLockSeed), true))
 		case 10:
@@ -397,6 +423,7 @@ func robustApply(reader string, data []byte) (ans string) {
 		dir, _ := os.MkdirTemp("", "verif-robust-")
 		defer os.RemoveAll(dir)
 		p := filepath.Join(dir, "c.yaml")
+		data = bytes.ReplaceAll(data, []byte("@SELF@"), []byte(p))
 		os.WriteFile(p, data, 0o644)
 		var ic types.ImageConfiguration
 		if err := ic.Load(ctx, p, nil, sha256.New()); err != nil {
@@ -424,6 +451,17 @@ func robustApply(reader string, data []byte) (ans string) {
 		}
 		e.Close()
 		return "ok"
+	case "hostile-apk":
+		// a whole build from a package whose data section carries hostile entries
+		var files []SFile
+		if err := json.Unmarshal(data, &files); err != nil {
+			return "unknown-reader"
+		}
+		repo := BuildSynthRepo([]SPkg{{Name: "h", Version: "1.0-r0", Origin: "h", Files: files}}, []string{"x86_64"})
+		var ic types.ImageConfiguration
+		ic.Contents.Packages = []string{"h"}
+		out := e2eBuild(ic, repo, E2EOpts{Archs: []string{"x86_64"}})
+		return okErr(out.Err)
 	case "tarfs-names":
 		names := strings.Split(string(data), "\x01")
 		m := tarfs.New()
